@@ -308,7 +308,11 @@ def w_bindings(idx):
         root.add_child(a)
         root.add_child(b)
         b.add_child(g)
-        nodes = [root, a, b, g]
+        # names that LOOK qualified - by a declared prefix, an undeclared one, an empty one: a name is a string, nothing to split
+        odd = [Node(nm) for nm in (pfx + ":unitList", "q:local", "undeclared:local", ":x", "x:", "q:a:b", "{urn:q}clark")]
+        for o in odd:
+            b.add_child(o)
+        nodes = [root, a, b, g] + odd
         if i % 3 == 0:
             root.add_namespace("q", "urn:q")
             root.add_namespace(pfx, uri)
